@@ -556,6 +556,8 @@ func init() {
 				r = math.Exp2(fs[0])
 			case "Mod":
 				r = math.Mod(fs[0], fs[1])
+			case "Hypot":
+				r = math.Hypot(fs[0], fs[1])
 			default:
 				m.unsupported("math." + n)
 			}
